@@ -513,11 +513,24 @@ func (w *world) apply(op Op) (f *evid.Failure) {
 		for _, doc := range op.Docs {
 			idx, in := w.lend(doc, "Tokenizer input")
 			tk := segjson.NewTokenizer(in)
-			var vals [][]byte
+			var vals, copies [][]byte
 			for n := 0; tk.Next() && n < len(doc)+2; n++ {
 				vals = append(vals, tk.Value)
+				copies = append(copies, append([]byte{}, tk.Value...))
 				if tk.Kind().Class() == segjson.String {
-					vals = append(vals, tk.String())
+					r := tk.String()
+					vals = append(vals, r)
+					copies = append(copies, append([]byte{}, r...))
+				}
+				// what earlier Next / String calls handed out stays as it was while the iteration goes on
+				from := 0
+				if len(vals) > 12 && n%32 != 0 {
+					from = len(vals) - 12 // the recent ones at every step, all of them every 32 steps
+				}
+				for i := from; i < len(vals); i++ {
+					if !bytes.Equal(vals[i], copies[i]) {
+						return fail("a result keeps its contents after further library calls", fmt.Sprintf("Tokenizer result %d is now %q", i, trunc(vals[i])), fmt.Sprintf("%q", trunc(copies[i])), "result-changed")
+					}
 				}
 			}
 			v := vals
